@@ -6,7 +6,9 @@
 //!      the module list is [(mbase, msize), extra modules…]; modules without symbols are unknown to the supplier
 //!   G  Symbolizer::get_symbol_at_address(debug_file, debug_id, instr)   (module base 0, name only)
 //! case:  M <mbase> <msize> [X <k> (<base> <size> <hassym>)*k] Q <n> <instr>*n R <item>*   (see ocaml/c11/main.ml)
-//! answer: T<tables>;D<out>/S<idx>:<out>/G<name>;...    names are printed as the integer they encode.
+//! answer: T<tables>;D<out>/S<idx>:<out>/G<name>;...;X<twin>    names are printed as the integer they encode.
+//!   X  the same file with the INLINE ranges of every FUNC block permuted, parsed and queried again: `Xok` when the
+//!      tables and every D answer are identical (judged by the oracle only; the model has no such field)
 //! Names are rendered as letter + 4 digits + a decoration chosen by the number (spaces, parentheses,
 //! templates, non-ASCII, tabs): String order is still the integer order, and every name flows through the
 //! real parser; FUNC/PUBLIC get the `m` flag when the name number is divisible by 3.
@@ -154,6 +156,39 @@ fn render(t: &mut Toks) -> String {
     text
 }
 
+/// The same text with, inside every run of FUNC sub-lines, the INLINE records in reverse order (they take the
+/// slots the INLINE lines occupied; line records and INLINE_ORIGINs stay where they are) and the address
+/// ranges of each INLINE record reversed: a permutation of every block's INLINE ranges.
+fn permuted(text: &str) -> String {
+    const TOP: [&str; 6] = ["FUNC ", "PUBLIC ", "FILE ", "STACK ", "MODULE ", "INFO "];
+    let mut out: Vec<String> = text.lines().map(|s| s.to_string()).collect();
+    let flip = |l: &str| -> String {
+        let t: Vec<&str> = l.split(' ').collect();
+        let mut r: Vec<String> = t[..5].iter().map(|s| s.to_string()).collect();
+        let pairs: Vec<&[&str]> = t[5..].chunks(2).collect();
+        for p in pairs.iter().rev() {
+            r.push(p.join(" "));
+        }
+        r.join(" ")
+    };
+    let mut i = 0;
+    while i < out.len() {
+        let mut j = i + 1;
+        while j < out.len() && !TOP.iter().any(|p| out[j].starts_with(p)) {
+            j += 1;
+        }
+        let slots: Vec<usize> = (i + 1..j).filter(|&k| out[k].starts_with("INLINE ")).collect();
+        let recs: Vec<String> = slots.iter().rev().map(|&k| flip(&out[k])).collect();
+        for (k, r) in slots.iter().zip(recs) {
+            out[*k] = r;
+        }
+        i = j;
+    }
+    let mut s = out.join("\n");
+    s.push('\n');
+    s
+}
+
 fn fmt_table(sym: &SymbolFile) -> String {
     let funcs: Vec<String> = sym
         .functions
@@ -273,6 +308,29 @@ fn run(line: &str) -> String {
         let g = block_on(symbolizer.get_symbol_at_address("m1", debugid::DebugId::nil(), q));
         out.push(format!("D{}/S{}/G{}", d, s, g.map(|n| nm(&n)).unwrap_or("-".into())));
     }
+    // twin: the INLINE ranges of every FUNC block permuted (c11_inline_order_irrelevant): same tables, same callbacks
+    let twin = match SymbolFile::from_bytes(permuted(&text).as_bytes()) {
+        Ok(s2) => {
+            if fmt_table(&s2) != out[0] {
+                "Xtable".to_string()
+            } else {
+                let mut v = "Xok".to_string();
+                for &q in &qs {
+                    let mut r1 = Rec { instruction: q, ..Default::default() };
+                    sym.fill_symbol(&module, &mut r1);
+                    let mut r2 = Rec { instruction: q, ..Default::default() };
+                    s2.fill_symbol(&module, &mut r2);
+                    if fmt_out(&r1.func, &r1.src, &r1.inl) != fmt_out(&r2.func, &r2.src, &r2.inl) {
+                        v = format!("Xdiff@{}", q);
+                        break;
+                    }
+                }
+                v
+            }
+        }
+        Err(e) => format!("Xerr:{:?}", e).replace(';', ","),
+    };
+    out.push(twin);
     out.join(";")
 }
 
